@@ -14,6 +14,8 @@ from .common import find_entry, interiors, short
 
 H = Poly.sym("h")
 
+CASE_SPLIT = True     # orderings between different grid sizes are analysed case by case (regions.run_under_size_cases)
+
 
 def fields_for(names, dim, degree=2):
     return {n: generic_poly(n.replace("[", "_").replace("]", ""), dim, degree) for n in names}
